@@ -755,6 +755,138 @@ def Schema.subtypes (s : Schema) (n : Name) : Option (List Name) :=
       (fun t => t.name == n || t.implements.contains n)).map (·.name))
   else none
 
+/-! ## Hash iteration order (C14)
+
+`Schema::new` iterates exactly one `HashMap`, `vertex_types`, at six sites — each time as
+`vertex_types.iter().sorted_by_key(|(name, _)| *name)`: mod.rs:334 (type/property/edge invariants),
+519 (transitive implementations), 572 (required fields), 607 (field type narrowing), 731 and 749
+(`required_resolutions` and `resolvers` in `get_field_origins`).  `fields`, `directives` and
+`scalars` are only looked up, never iterated.  The definitions below are the ones above with the
+order in which the map hands out its entries made an explicit parameter: at every site an arbitrary
+rearrangement of the entries, *then* the sort.  `Props/C14Schema.lean` proves that the parameter
+does not matter. -/
+
+/-- The iteration order of `vertex_types` at each site (site = source line): any permutation. -/
+structure HashOrder where
+  perm : Nat → List TypeDef → List TypeDef
+  isPerm : ∀ (site : Nat) (l : List TypeDef), (perm site l).Perm l
+
+/-- The order of insertion. -/
+def HashOrder.insertion : HashOrder := ⟨fun _ l => l, fun _ l => List.Perm.refl l⟩
+
+/-- `vertex_types.iter().sorted_by_key(|(name, _)| *name)` at `site`. -/
+def sortedTypes (π : HashOrder) (site : Nat) (vts : List TypeDef) : List TypeDef :=
+  sortByName (π.perm site vts)
+
+def checkTransitiveW (π : HashOrder) (vts : List TypeDef) : List SchemaErr :=
+  (sortedTypes π 519 vts).flatMap (checkTransitiveFor vts)
+
+def checkNarrowingW (π : HashOrder) (vts : List TypeDef) : Outcome (List SchemaErr) :=
+  Outcome.collect (checkNarrowingType vts) (sortedTypes π 607 vts)
+
+def checkRequiredFieldsW (π : HashOrder) (vts : List TypeDef) : List SchemaErr :=
+  (sortedTypes π 572 vts).flatMap (checkRequiredFieldsFor vts)
+
+def checkInvariantsW (π : HashOrder) (vts : List TypeDef) (root : Name) : Outcome (List SchemaErr) :=
+  Outcome.collect (checkTypeInvariants vts root) (sortedTypes π 334 vts)
+
+def implementersOfW (π : HashOrder) (vts : List TypeDef) (n : Name) : List Name :=
+  nameSet (((sortedTypes π 749 vts).filter (fun t => t.implements.contains n)).map (·.name))
+
+def kInitW (π : HashOrder) (vts : List TypeDef) : KState :=
+  let sorted := sortedTypes π 731 vts
+  { origins := []
+    queue := (sorted.filter (fun t => (resolutionsOf vts t).isEmpty)).map (·.name)
+    remaining := sorted.map (fun t => (t.name, resolutionsOf vts t)) }
+
+def kStepW (π : HashOrder) (vts : List TypeDef) (st : KState) (tname : Name) (rest : List Name) :
+    Outcome KState :=
+  match findType vts tname with
+  | none => .panic (.internal 769)
+  | some defn =>
+    match implementedFields vts st.origins [] defn.implements with
+    | .panic s => .panic s
+    | .ok inherited =>
+      match insertOrigins tname inherited st.origins defn.fields with
+      | .panic s => .panic s
+      | .ok origins' =>
+        match resolveAll tname (st.remaining, rest) (implementersOfW π vts tname) with
+        | .panic s => .panic s
+        | .ok (remaining', queue') => .ok { origins := origins', queue := queue', remaining := remaining' }
+
+def kLoopW (π : HashOrder) (vts : List TypeDef) : Nat → KState → Outcome KState
+  | fuel, st =>
+    match st.queue with
+    | [] => .ok st
+    | tname :: rest =>
+      match fuel with
+      | 0 => .panic (.internal 0)
+      | fuel + 1 =>
+        match kStepW π vts st tname rest with
+        | .panic s => .panic s
+        | .ok st' => kLoopW π vts fuel st'
+
+def getFieldOriginsW (π : HashOrder) (vts : List TypeDef) : Outcome (Except SchemaErr Origins) :=
+  match kLoopW π vts vts.length (kInitW π vts) with
+  | .panic s => .panic s
+  | .ok st =>
+    match firstUnresolved st.remaining with
+    | some e => .ok (.error e)
+    | none => .ok (.ok st.origins)
+
+def runChecksW (π : HashOrder) (vts : List TypeDef) (q : TypeDef) :
+    Outcome (List SchemaErr × Option Origins) :=
+  let e1 := checkTransitiveW π vts
+  match checkNarrowingW π vts with
+  | .panic s => .panic s
+  | .ok e2 =>
+    let e3 := checkRequiredFieldsW π vts
+    match checkInvariantsW π vts q.name with
+    | .panic s => .panic s
+    | .ok e4 =>
+      match checkRoot q with
+      | .panic s => .panic s
+      | .ok e5 =>
+        match getFieldOriginsW π vts with
+        | .panic s => .panic s
+        | .ok (.error e) => .ok (e1 ++ e2 ++ e3 ++ e4 ++ e5 ++ [e], none)
+        | .ok (.ok origins) =>
+          match checkAmbiguous vts origins with
+          | .panic s => .panic s
+          | .ok e6 => .ok (e1 ++ e2 ++ e3 ++ e4 ++ e5 ++ e6, some origins)
+
+/-- `Schema::new` with the hash iteration order `π`; errors in the order the code reports them. -/
+def Schema.newW (π : HashOrder) (doc : Doc) : Outcome (Except (List SchemaErr) Schema) :=
+  match runLoop {} doc with
+  | .panic s => .panic s
+  | .ok (.error e) => .ok (.error [e])
+  | .ok (.ok st) =>
+    match st.schema with
+    | none => .panic .noSchemaBlock
+    | some qname =>
+      match findType st.vertexTypes qname with
+      | none => .panic .queryTypeUndefined
+      | some q =>
+        if q.isInterface then .panic .queryTypeNotObject
+        else
+          match runChecksW π st.vertexTypes q with
+          | .panic s => .panic s
+          | .ok (errors, origins) =>
+            if errors.isEmpty then
+              match origins with
+              | none => .panic (.internal 249)
+              | some o =>
+                .ok (.ok { queryType := q, directives := st.directives, scalars := st.scalars,
+                           vertexTypes := st.vertexTypes, fieldOrigins := o })
+            else .ok (.error errors)
+
+/-- `Schema::subtypes` with the hash iteration order `π` (site mod.rs:266). -/
+def Schema.subtypesW (π : HashOrder) (s : Schema) (n : Name) : Option (List Name) :=
+  if (findType s.vertexTypes n).isSome then
+    some (((sortedTypes π 266 s.vertexTypes).filter
+      (fun t => t.name == n || t.implements.contains n)).map (·.name))
+  else none
+
 /-! ## The declarative rules (independent of the algorithm above) -/
 
 /-- The object/interface definitions of a document. -/
